@@ -63,6 +63,16 @@ static void check_string(const char* str, unsigned coin, const char* cls, pv_rng
             if (memcmp(g_i1, eimg[which], 32)) { ok = false; pv_violation("C09/relation/different-seed", "[%s] auto and explicit(%s) give different seeds", cls, pv_langs[which].name_en); }
         }
     }
+    /* lang_out is optional: leaving it out must change nothing (status and seed identical to the call that asked for the language) */
+    {
+        polyseed_data* a2 = NULL;
+        int st2 = pv_api_decode(str, coin, NULL, &a2);
+        PV_COUNT("evaluations", 1);
+        if (st2 != st) { ok = false; pv_violation("C09/lang-out-null/status-differs", "[%s] decode with lang_out=NULL -> %s, with lang_out -> %s (%d languages recognise all tokens); '%s'", cls, pv_status_name(st2), pv_status_name(st), nR, pv_esc(str)); }
+        else if (st == POLYSEED_OK) { pv_api_store(a, g_i1); pv_api_store(a2, g_i2); if (memcmp(g_i1, g_i2, 32)) { ok = false; pv_violation("C09/lang-out-null/seed-differs", "[%s] decode with and without lang_out give different seeds; '%s'", cls, pv_esc(str)); } }
+        if (st2 == POLYSEED_OK) pv_api_free(a2);
+        pv_countf(1, "lang_out_null.%s", pv_status_name(st2));
+    }
     if (st == POLYSEED_OK) pv_api_free(a);
     pv_countf(1, "outcome.%s", oc);
     pv_countf(1, "class.%s", cls);
@@ -71,7 +81,7 @@ static void check_string(const char* str, unsigned coin, const char* cls, pv_rng
     /* precedence with a failing allocator */
     if (with_armed) {
         pv_w->fail_countdown = 1; a = NULL; lo = SENTINEL;
-        int sa = pv_api_decode(str, coin, &lo, &a);
+        int sa = pv_api_decode(str, coin, pv_randn(rng, 2) ? &lo : NULL, &a);
         bool consumed = pv_w->fail_countdown == 0; pv_w->fail_countdown = 0;
         PV_COUNT("evaluations", 1);
         int want = (st == POLYSEED_OK || st == POLYSEED_ERR_UNSUPPORTED) ? POLYSEED_ERR_MEMORY : st;
